@@ -77,6 +77,7 @@ pub fn lookup(name: &str) -> Option<(&'static str, ScenFn)> {
         "progress" => (crate::scen_progress::PROGRESS_RULE, crate::scen_progress::progress as ScenFn),
         "pathv" => (crate::scen_path::PATHV_RULE, crate::scen_path::pathv as ScenFn),
         "term" => (crate::scen_term::TERM_RULE, crate::scen_term::term as ScenFn),
+        "tokflow" => (crate::scen_token::TOKFLOW_RULE, crate::scen_token::tokflow as ScenFn),
         "resettok" => (crate::scen_reset::RESETTOK_RULE, crate::scen_reset::resettok as ScenFn),
         _ => return None,
     })
